@@ -165,6 +165,8 @@ pub struct Kernel {
     pub initial_max_threads: usize,
     pub spurious_cv_permille: u32,
     pub faults_off: bool,
+    /// the task at the current scheduling point gives way: somebody else runs if anybody else can
+    yielding: bool,
     pub spurious_park_permille: u32,
     spawn_observer: Option<Box<dyn FnMut(&str, usize)>>,
     pub event_seq: u64,
@@ -283,6 +285,7 @@ pub fn run<F: FnOnce() + 'static>(cfg: RunConfig, strategy: Box<dyn Strategy>, r
         initial_max_threads: cfg.initial_max_threads,
         spurious_cv_permille: cfg.spurious_cv_permille,
         faults_off: false,
+        yielding: false,
         spurious_park_permille: cfg.spurious_park_permille,
         spawn_observer: None,
         event_seq: 0,
@@ -406,6 +409,11 @@ impl Kernel {
         for (i, t) in self.tasks.iter().enumerate() {
             if t.state == TState::Runnable {
                 opts.push(i);
+            }
+        }
+        if self.yielding && opts.len() > 1 {
+            if let Some(c) = cur {
+                opts.retain(|&o| o != c);
             }
         }
         let r = if opts.is_empty() {
@@ -627,6 +635,14 @@ pub fn spurious_cv() -> bool {
         r
     })
     .unwrap_or(false)
+}
+
+/// `thread::yield_now`: a scheduling point at which the caller is not chosen again if anybody else can run (a thread that
+/// spins on `yield_now` must not starve the thread it is waiting for, whatever the strategy).
+pub fn yield_point() {
+    with(|k| k.yielding = true);
+    point();
+    with(|k| k.yielding = false);
 }
 
 /// Faults stop / resume: while off, no spurious return is injected and no harness coin comes up (and none is drawn).
